@@ -4,6 +4,7 @@ Ops (one per line; topics/filters carry a leading ':' so that the empty string i
   new | add :<topic> <tag> | rm :<topic> | clear | get :<topic> | match :<filter> | iter | iterstop <n>
 The wire-level part of C07 (when the broker stores / clears / replays) is a separate component.
 """
+import re
 from .. import core
 
 PROP = "C07"
@@ -235,6 +236,35 @@ def _recognisers():
     return {"retained_replay_retain_flag": c07wire.rec_f13}
 
 RECOGNISERS = _recognisers()
+
+def extra(r):
+    """model-side search for the order-of-effects obligation: when the source delivers before it updates the retained store (or the
+    SUBSCRIBE handler reads the store before it installs the subscription) the interleaving model has a losing schedule"""
+    import os
+    try:
+        facts = open(os.path.join(core.LEAN, "GmqttVerif", "Generated", "PubOrder.lean")).read()
+    except OSError:
+        return
+    def codes(name):
+        m = re.search(r"def %s : List Nat :=\s*\n\s*\[(.*?)\]" % name, facts)
+        return [int(x) for x in m.group(1).split(",") if x.strip()] if m else []
+    for name, who in (("publishOrderN", "publishHandler"), ("willOrderN", "sendWillLocked")):
+        c = codes(name)
+        if 1 in c and 2 in c and c.index(2) < max(i for i, x in enumerate(c) if x == 1):
+            body = (f"# server: {who} delivers the message BEFORE it updates the retained store (Generated/PubOrder.lean {name} = {c}).\n"
+                    "# Schedule of Model/RetainRace.lean on which a subscriber loses an acknowledged retained message\n"
+                    "# (theorem C07Order.deliver_then_store_can_lose: copies = 0, stored = true):\n"
+                    "#stream retain-race-schedule\n"
+                    "deliver     # publisher: deliverMessage iterates the subscriptions — the subscriber is not there yet\n"
+                    "install     # subscriber (another connection's goroutine): subscriptionsDB.Subscribe\n"
+                    "replay      # subscriber: retainedDB.GetMatchedMessages — the message is not stored yet\n"
+                    "store       # publisher: retainedDB.AddOrReplace — kept from now on, the subscriber never got it\n")
+            r.violation("retain-race", body, True, f"{who} delivers before the retained store is updated (losing schedule in the replay)")
+    c = codes("subscribeOrderN")
+    if 3 in c and 4 in c and c.index(4) < c.index(3):
+        body = ("# server: subscribeHandler reads the retained store BEFORE it installs the subscription.\n#stream retain-race-schedule\n"
+                "replay\nstore\ndeliver\ninstall\n")
+        r.violation("retain-race", body, True, "subscribeHandler replays before it installs the subscription (losing schedule in the replay)")
 
 def run(r):
     return core.standard_run(r, __import__(__name__, fromlist=["x"]))
